@@ -1,5 +1,6 @@
 import PugModel.Tpl.Exec
 import PugProofs.Props.C10
+import PugProofs.C03.Frame
 /-!
 # C03 — mixins bind arguments, attributes and block content per call
 
@@ -70,5 +71,39 @@ theorem C03_compiler_state_per_template :
     (Gen.loadSkeleton.filter fun r => r.2 == "3 new renderState" || r.2 == "0 new renderState" || r.2 == "1 new renderState" ||
       r.2 == "2 new renderState" || r.2 == "4 new renderState") = [("compileDir", "3 new renderState")] :=
   Pug.Props.C10.C10_state_per_template
+
+/-- **C03 (a call's `attributes` object is built FROM the call's values, never INTO them).** For EVERY argument list of the runtime
+helper `__op__map_params` (any number of names, repeated names, values of every kind - among them arrays that live on after the
+call: page data, variables, mixin arguments) and EVERY execution state: if the helper returns, then every array and every map that
+existed before the call holds exactly what it held, the variables, the output and the bound blocks are untouched, and the result is
+a map that did not exist before. So `+m(class=xs class='x')`, called any number of times, never grows `xs`, and an attribute-less
+call gets an object of its own (stage lemmas `PugProofs/C03/Frame.lean`, relation `Grows`). -/
+theorem C03_call_attributes_frame (kvs : List Val) (st st' : St) (v : Val)
+    (h : callBuiltin "__op__map_params" kvs st = .ok (v, st')) :
+    (∀ a, a < st.heap.arrs.length → st'.heap.getArr a = st.heap.getArr a) ∧
+    (∀ a, a < st.heap.maps.length → st'.heap.getMap a = st.heap.getMap a) ∧
+    st'.vars = st.vars ∧ st'.globals = st.globals ∧ st'.out = st.out ∧ st'.closures = st.closures ∧
+    ∃ a, v = .map a ∧ st.heap.maps.length ≤ a := by
+  have hc : callBuiltin "__op__map_params" kvs = mapParams kvs := by
+    unfold callBuiltin
+    rfl
+  rw [hc] at h
+  obtain ⟨g, hv⟩ := C03F.mapParams_grows kvs st st' v h
+  obtain ⟨h1, h2, h3, _, _, h6⟩ := g.rest
+  exact ⟨g.getArr, g.getMap, h1, h2, h3, h6, hv⟩
+
+/-! non-vacuity: `+m(class=xs class='x')` over a heap that holds `xs = ["a", "b"]`: the helper returns, the result is the new map 0,
+its `class` is the NEW array 1 = [xs, "x"], and array 0 still is ["a", "b"] -/
+example :
+    callBuiltin "__op__map_params" [.str "class", .arr 0, .str "class", .str "x"]
+      { vars := [], globals := [], heap := { arrs := [[.S "a", .S "b"]], maps := [] }, out := "", depth := 0 } =
+    .ok (.map 0, { vars := [], globals := [], out := "", depth := 0,
+                   heap := { arrs := [[.S "a", .S "b"], [.arr 0, .S "x"]], maps := [{ items := [("class", .arr 1)], order := [] }] } }) := by
+  have hc : ∀ kvs, callBuiltin "__op__map_params" kvs = mapParams kvs := by
+    intro kvs
+    unfold callBuiltin
+    rfl
+  rw [hc]
+  rfl
 
 end Pug.Props.C03
